@@ -577,6 +577,7 @@ def load_corpus():
     for path in sorted(glob.glob(os.path.join(CORPUS, "*.json"))):
         c = json.load(open(path))
         c["stream"] = "corpus"
+        c["to_model"] = True
         c["corpus_file"] = os.path.basename(path)
         progs.append(c)
     return progs
@@ -623,8 +624,7 @@ def analyse(ck, progs, outs, stats):
                 rep = {"kind": "corpus case: expected %s, got %s" % (want, got), "program": program_text(prog),
                        "pre": go_case(prog)["pre"], "impl": out}
                 problems.append((i, rep, "" if got == "violation" else "no-failing-input-found"))
-            continue
-        if accepted and out["nbad"] > 0:
+        elif accepted and out["nbad"] > 0:
             s["failing"] += 1
             rep = {"kind": "accepted by AnalyzeAndCheckBounds(ErrorForBoundsMismatch); after evaluation a stored fact of a "
                            "declared predicate fails TypeChecker.CheckTypeBounds",
